@@ -41,6 +41,8 @@ def spec_run(content, ops):
             if p[0] == "read":
                 k = min(int(p[1]), len(cur) - pos)
                 out.append("bytes " + C.show(cur[pos:pos + k])); pos += k
+            elif p[0] == "readall":
+                out.append("bytes " + C.show(cur[pos:])); pos = len(cur)
             elif p[0] == "sizes":
                 out.append("sizes %d %d %d" % (len(cur), pos, len(cur) - pos))
             else:
@@ -86,7 +88,11 @@ def rand_prog(rng, length):
     ops.append("intostream" if (kind == "region" and rng.random() < 0.6) else "stream")
     ops.append("sizes")
     left = cur
+    stop_early = rng.random() < 0.4
     while left > 0 and len(ops) < 40:
+        if stop_early and rng.random() < 0.3:
+            ops += ["readall", "sizes"]; left = 0
+            break
         k = rng.choice([1, 2, 3, 7, 64, 1000, 1024, 1025, 4096, left, left + 1, rng.randint(1, max(1, left))])
         ops.append("read:%d" % k); left -= min(k, left)
         if rng.random() < 0.3:
@@ -108,6 +114,7 @@ def gen_cases(seed, tier):
     for src in SRC_KINDS:
         add(src, 64, 3, 40, 7, 9, 1, "r", ["intostream", "sizes", "read:4", "sizes", "read:100", "sizes"])
         add(src, 64, 3, 40, 7, 9, 1, "r", ["cut:2:5", "toregion", "intostream", "read:2", "sizes", "read:9"])
+        add(src, 64, 3, 40, 7, 9, 1, "r", ["stream", "read:3", "readall", "sizes", "readall", "read:1"])
     # exhaustive small: every partition of len <= 6 (<= 4 reads) x {stream, intostream} on 3 cheap kinds
     maxlen = 6 if tier == "quick" else 8
     for length in range(0, maxlen + 1):
